@@ -162,7 +162,7 @@ def run_property(pid, tier='quick', seed=0, out=sys.stdout):
                 rp = {'error': traceback.format_exc()[-800:]}
         failing = (rp or {}).get('failing_input')
         if not failing:
-            rel = [f for n, f in standin_failures]
+            rel = [f for n, f in standin_failures if not any(finding_matches_failure(k, f) for k in known)]
             failing = rel[0] if rel else None
         payload = {'property': pid, 'tier': tier, 'seed': seed, 'obligation': r['name'], 'verdict': 'refuted', 'backend': r.get('backend'),
                    'solver_model': r.get('model'), 'replay': rp, 'failing_input': failing,
